@@ -215,6 +215,30 @@ func ruleEvents(c *Ctx) {
 		}
 		c.Sites++
 		c.check(okOrder, R, key, p.ipos(hit), "event name and operand order as in the manual", fmt.Sprintf("%s passes its operands to %s in the wrong order", s.fn, s.callee))
+		// …and through that helper only: a second lookup of the same event by another helper (one operand
+		// instead of both) selects a different handler on the paths it serves
+		var stray *ssa.Call
+		for _, other := range []string{"(*LState).metaOp1", "(*LState).metaOp2", "objectRational", "objectRationalWithError", "(*LState).GetMetaField"} {
+			if other == s.callee {
+				continue
+			}
+			of := p.Fn("lua", other)
+			if of == nil {
+				continue
+			}
+			for _, cl := range callsTo(fn, of) {
+				for _, a := range cl.Call.Args {
+					if ev, ok := constStr(a); ok && ev == s.event {
+						stray = cl
+					}
+				}
+			}
+		}
+		if stray != nil {
+			c.bad(R, key+":looked-up-one-way", p.ipos(stray), fmt.Sprintf("%s also looks up %q through %s: on the paths that take this lookup the handler is selected from other operands than §2.8 prescribes (for a binary event: the left operand first, then the right)", s.fn, s.event, fname(stray.Call.StaticCallee())))
+		} else {
+			c.okT(R, key+":looked-up-one-way", p.ipos(hit), "no second lookup of the event through another helper")
+		}
 		// events every type of value may define (through its type's metatable): the lookup is not placed
 		// under a test that admits only tables or only userdata
 		if anyTypeEvent[s.event] && s.callee == "(*LState).metaOp1" {
